@@ -165,9 +165,10 @@ func createTable(p *lang.Process, db *sql.DB, name string, v any, confFailColMis
 
 	case []any:
 		table := make([][]string, len(v)+1)
-		i := 1
+		i := 0
 		err := types.MapToTable_Any(v, func(s []string) error {
-			table[i] = s
+			// the callback reuses its slice for every row
+			table[i] = append([]string{}, s...)
 			i++
 			return nil
 		})
@@ -178,9 +179,10 @@ func createTable(p *lang.Process, db *sql.DB, name string, v any, confFailColMis
 
 	case []map[string]any:
 		table := make([][]string, len(v)+1)
-		i := 1
+		i := 0
 		err := types.MapToTable_MapStringAny(v, func(s []string) error {
-			table[i] = s
+			// the callback reuses its slice for every row
+			table[i] = append([]string{}, s...)
 			i++
 			return nil
 		})
